@@ -117,7 +117,7 @@ def run(repo='/repo', gen_dir=None, seed=0, rlimit=30.0, threads=16, use_cache=T
         os.replace(cpath + '.tmp', cpath)
         # keep the cache small
         ents = sorted((os.path.getmtime(os.path.join(cache_dir, f)), f) for f in os.listdir(cache_dir) if f.endswith('.json'))
-        for _, f in ents[:-12]:
+        for _, f in ents[:-60]:
             os.remove(os.path.join(cache_dir, f))
         return res
     finally:
